@@ -35,9 +35,12 @@ void *memmove(void *dst, const void *src, size_t n) {
 void *memset(void *dst, int c, size_t n) {
     __CPROVER_assert(n == 0 || __CPROVER_w_ok(dst, n), "memset destination writable for the full length");
     LCHK(dst, n, "memset destination");
-    __CPROVER_assert(n <= MEM_MAX, "ENVBOUND/memset length within model bound");
+#ifndef MEMSET_MAX
+#define MEMSET_MAX MEM_MAX
+#endif
+    __CPROVER_assert(n <= MEMSET_MAX, "ENVBOUND/memset length within model bound");
     unsigned char *d = dst;
-    for(size_t i = 0; i < MEM_MAX; i++) if(i < n) d[i] = (unsigned char)c;
+    for(size_t i = 0; i < MEMSET_MAX; i++) if(i < n) d[i] = (unsigned char)c;
     return dst;
 }
 int memcmp(const void *a, const void *b, size_t n) {
